@@ -231,23 +231,16 @@ def run(prog: Program, res: Result) -> None:
         bad("R2-modes-validated-at-construction", init.node, "__init__ does not build self._modes from `modes` and validate it with __check_modes__()",
             key="multitask.Multitask.__init__::check_modes")
     cm = prog.func(f"{MT}.__check_modes__")
-    raises = [n for n in own_nodes(cm) if isinstance(n, ast.Raise)]
-    okr = len(raises) == 1 and isinstance(raises[0].exc, ast.Call) and dotted(raises[0].exc.func) == "ValueError"
-    member = [n for n in own_nodes(cm) if isinstance(n, ast.Compare) and isinstance(n.ops[0], ast.In) and dotted(n.comparators[0]) == "ModeSolver"]
-    flat = [n for n in own_nodes(cm) if isinstance(n, ast.Call) and dotted(n.func) in ("chain.from_iterable", "itertools.chain.from_iterable")
-            and n.args and dotted(n.args[0]) == "self._modes"]
-    # or a nested comprehension over every row and every entry of the row
-    for n in own_nodes(cm):
-        if isinstance(n, (ast.ListComp, ast.GeneratorExp)) and len(n.generators) == 2 and not n.generators[0].ifs and not n.generators[1].ifs \
-                and dotted(n.generators[0].iter) == "self._modes" and isinstance(n.generators[0].target, ast.Name) \
-                and dotted(n.generators[1].iter) == n.generators[0].target.id:
-            flat.append(n)
-    alls = [n for n in own_nodes(cm) if isinstance(n, ast.Call) and isinstance(n.func, ast.Name) and n.func.id == "all"]
-    okr = okr and len(member) == 1 and len(flat) == 1 and len(alls) == 1
-    res.ob(okr, f"{cm.loc()} __check_modes__: all(mode in ModeSolver for every entry) else ValueError", "check_modes")
-    if not okr:
-        bad("R2-modes-validated-at-construction", cm.node, "__check_modes__ does not reject a table containing an unknown mode with ValueError",
-            key="multitask.Multitask.__check_modes__::shape")
+    verdict, why_cm = _check_modes_verdict(cm)
+    if verdict == "undecided":
+        res.errors.append(f"{cm.loc()} __check_modes__: {why_cm} (undecided)")
+    else:
+        okr = verdict == "ok"
+        res.ob(okr, f"{cm.loc()} __check_modes__: an entry outside ModeSolver anywhere in the table raises ValueError", "check_modes")
+        if not okr:
+            bad("R2-check-modes-rejects-unknown", cm.node,
+                f"__check_modes__ does not reject a table containing an unknown mode with ValueError: {why_cm}",
+                key="multitask.Multitask.__check_modes__::shape")
 
     # ------------------------------------------------------------------ R3
     ex = prog.func(f"{MT}.execute")
@@ -311,6 +304,7 @@ def run(prog: Program, res: Result) -> None:
             if okdf:
                 dname = (resets[0].targets[0] if isinstance(resets[0], ast.Assign) else resets[0].target).id
                 arg = appends[0].value.args[0]
+                arg = origin(ex.node, arg) if isinstance(arg, ast.Name) else arg
                 df_src = arg.args[0] if isinstance(arg, ast.Call) and arg.args else None
                 from ..flow import alias_root
                 df_src = alias_root(ex.node, df_src) if isinstance(df_src, ast.Name) else df_src
@@ -399,6 +393,145 @@ def run(prog: Program, res: Result) -> None:
     if not oke:
         bad("R5-export-each-algorithm", er.node, "export_results does not write self._df2[k] exactly once for every algorithm k",
             key="multitask.Multitask.export_results::each")
+
+
+def _flat_iter(e, fnode):
+    """-> 'all' when e enumerates every entry of every row of self._modes, 'part' when it provably enumerates a part of the
+    table (a subscript / slice of it), None when not understood"""
+    e = origin(fnode, e) if isinstance(e, ast.Name) else e
+    while isinstance(e, ast.Call) and isinstance(e.func, ast.Name) and e.func.id in ("list", "tuple", "iter") and len(e.args) == 1:
+        e = e.args[0]
+        e = origin(fnode, e) if isinstance(e, ast.Name) else e
+    if isinstance(e, ast.Call) and dotted(e.func) in ("chain.from_iterable", "itertools.chain.from_iterable") and len(e.args) == 1:
+        a = e.args[0]
+        if dotted(a) == "self._modes":
+            return "all"
+        if isinstance(a, ast.Subscript) and dotted(a.value) == "self._modes":
+            return "part"
+        return None
+    if isinstance(e, ast.Call) and dotted(e.func) in ("chain", "itertools.chain") and len(e.args) == 1 \
+            and isinstance(e.args[0], ast.Starred) and dotted(e.args[0].value) == "self._modes":
+        return "all"
+    if isinstance(e, ast.Subscript) and dotted(e.value) == "self._modes":
+        return "part"
+    if isinstance(e, (ast.ListComp, ast.GeneratorExp)) and len(e.generators) == 2 and not e.generators[0].ifs \
+            and not e.generators[1].ifs and isinstance(e.generators[0].target, ast.Name) \
+            and dotted(e.generators[1].iter) == e.generators[0].target.id and isinstance(e.elt, ast.Name) \
+            and isinstance(e.generators[1].target, ast.Name) and e.elt.id == e.generators[1].target.id:
+        it0 = e.generators[0].iter
+        if dotted(it0) == "self._modes":
+            return "all"
+        if isinstance(it0, ast.Subscript) and dotted(it0.value) == "self._modes":
+            return "part"
+    return None
+
+
+def _member_pred(e, var: str):
+    """+1: `var in ModeSolver`, -1: `var not in ModeSolver`, None otherwise"""
+    if isinstance(e, ast.UnaryOp) and isinstance(e.op, ast.Not):
+        r = _member_pred(e.operand, var)
+        return None if r is None else -r
+    if isinstance(e, ast.Compare) and len(e.ops) == 1 and isinstance(e.left, ast.Name) and e.left.id == var \
+            and dotted(e.comparators[0]) == "ModeSolver":
+        if isinstance(e.ops[0], ast.In):
+            return +1
+        if isinstance(e.ops[0], ast.NotIn):
+            return -1
+    return None
+
+
+def _quantified(e, fnode):
+    """condition -> ('exists-bad' | 'forall-good', coverage) or None.  coverage in ('all', 'part', None)"""
+    e = origin(fnode, e) if isinstance(e, ast.Name) else e
+    if isinstance(e, ast.UnaryOp) and isinstance(e.op, ast.Not):
+        q = _quantified(e.operand, fnode)
+        if q is None:
+            return None
+        return ("forall-good" if q[0] == "exists-bad" else "exists-bad", q[1])
+    if isinstance(e, ast.Compare) and len(e.ops) == 1 and isinstance(e.left, ast.Call) and isinstance(e.left.func, ast.Name) \
+            and e.left.func.id == "len" and len(e.left.args) == 1 and isinstance(e.comparators[0], ast.Constant) \
+            and e.comparators[0].value == 0 and isinstance(e.ops[0], (ast.Gt, ast.NotEq)):
+        return _quantified(e.left.args[0], fnode)
+    if isinstance(e, ast.Call) and isinstance(e.func, ast.Name) and e.func.id in ("all", "any") and len(e.args) == 1 and not e.keywords:
+        c = e.args[0]
+        c = origin(fnode, c) if isinstance(c, ast.Name) else c
+        while isinstance(c, ast.Call) and isinstance(c.func, ast.Name) and c.func.id in ("list", "tuple") and len(c.args) == 1:
+            c = c.args[0]
+        if isinstance(c, (ast.ListComp, ast.GeneratorExp)) and not any(g.ifs for g in c.generators):
+            var = c.generators[-1].target.id if isinstance(c.generators[-1].target, ast.Name) else None
+            pol = _member_pred(c.elt, var) if var else None
+            if pol is None:
+                return None
+            if len(c.generators) == 1:
+                cov = _flat_iter(c.generators[0].iter, fnode)
+            elif len(c.generators) == 2 and isinstance(c.generators[0].target, ast.Name) \
+                    and dotted(c.generators[1].iter) == c.generators[0].target.id:
+                it0 = c.generators[0].iter
+                cov = "all" if dotted(it0) == "self._modes" else ("part" if isinstance(it0, ast.Subscript) and dotted(it0.value) == "self._modes" else None)
+            else:
+                return None
+            if e.func.id == "all" and pol == +1:
+                return ("forall-good", cov)
+            if e.func.id == "any" and pol == -1:
+                return ("exists-bad", cov)
+            return None
+        return None
+    # truthiness of the list of offending entries
+    if isinstance(e, (ast.ListComp,)) and len(e.generators) in (1, 2) and isinstance(e.generators[-1].target, ast.Name):
+        g = e.generators[-1]
+        if len(g.ifs) == 1 and not any(x.ifs for x in e.generators[:-1]) and _member_pred(g.ifs[0], g.target.id) == -1:
+            if len(e.generators) == 1:
+                cov = _flat_iter(g.iter, fnode)
+            else:
+                it0 = e.generators[0].iter
+                cov = None
+                if isinstance(e.generators[0].target, ast.Name) and dotted(g.iter) == e.generators[0].target.id:
+                    cov = "all" if dotted(it0) == "self._modes" else ("part" if isinstance(it0, ast.Subscript) and dotted(it0.value) == "self._modes" else None)
+            return ("exists-bad", cov)
+    return None
+
+
+def _check_modes_verdict(cm) -> tuple:
+    """'ok' | 'bad' | 'undecided' for: whenever the table holds an entry outside ModeSolver, ValueError is raised.
+    A violation is reported only for a positively identified deviation (part of the table, another exception, no raise)."""
+    raises = [n for n in own_nodes(cm) if isinstance(n, ast.Raise)]
+    if not raises:
+        return "bad", "it never raises"
+    if len(raises) != 1:
+        return "undecided", "several raise statements"
+    r = raises[0]
+    exc = dotted(r.exc.func) if isinstance(r.exc, ast.Call) else dotted(r.exc) if r.exc is not None else None
+    from ..model import parent as _parent
+    p = _parent(r)
+    if not (isinstance(p, ast.If) and r in p.body and _parent(p) is cm.node):
+        return "undecided", "the raise is not directly guarded by one top-level if"
+    # earlier statements: only `if self._modes is None: return` and plain assignments
+    for st in cm.node.body[:cm.node.body.index(p)]:
+        if isinstance(st, (ast.Assign, ast.AnnAssign)) or (isinstance(st, ast.Expr) and isinstance(st.value, ast.Constant)):
+            continue
+        if isinstance(st, ast.If) and not st.orelse and len(st.body) == 1 and isinstance(st.body[0], ast.Return) \
+                and isinstance(st.test, ast.Compare) and dotted(st.test.left) == "self._modes" and isinstance(st.test.ops[0], ast.Is):
+            continue
+        return "undecided", f"statement `{norm(st, 50)}` before the test is not understood"
+    test = p.test
+    if isinstance(test, ast.BoolOp) and isinstance(test.op, ast.And):
+        rest = [v for v in test.values if not (isinstance(v, ast.Compare) and dotted(v.left) == "self._modes"
+                                               and isinstance(v.ops[0], ast.IsNot))]
+        if len(rest) == 1:
+            test = rest[0]
+    q = _quantified(test, cm.node)
+    if q is None:
+        return "undecided", f"the rejection test `{norm(p.test, 60)}` is not understood"
+    kind, cov = q
+    if kind != "exists-bad":
+        return "bad", "the table is rejected when every entry is a known mode"
+    if cov == "part":
+        return "bad", "only a part of the table (a subscript of self._modes) is examined"
+    if cov != "all":
+        return "undecided", "which entries are examined is not understood"
+    if exc != "ValueError":
+        return "bad", f"an unknown mode raises {exc}, not ValueError"
+    return "ok", ""
 
 
 # ---------------------------------------------------------------------------------------------
